@@ -317,6 +317,24 @@ def fmt_rewrite(job, skip_ranges, notes):
             continue
         if not (lo <= t.pos < hi) or any(a <= t.pos < b for a, b in skip_ranges):
             continue
+        try:
+            k = _fmt_site(job, notes, helpers, k, i, t)
+        except Lost as e:
+            # a format string this pass cannot read is a loss local to its function: the format! stays, Verus cannot read it,
+            # the function is demoted by the engine and its clauses are undecided
+            fq = None
+            for f in job.fns:
+                if f.body_open >= 0 and toks[f.body_open].pos <= t.pos < toks[f.body_close].end:
+                    fq = f.qual
+            if fq is None:
+                raise
+            notes['lost'].setdefault(fq, []).append(str(e))
+    return '\n'.join(helpers)
+
+
+def _fmt_site(job, notes, helpers, k, i, t):
+    toks, pair = job.toks, job.pair
+    if True:
         po, pc = i + 2, pair[i + 2]
         # split args at top-level commas
         args, cur_start, j = [], po + 1, po + 1
@@ -350,7 +368,14 @@ def fmt_rewrite(job, skip_ranges, notes):
                 job.edits.remove(e)
             out.append(job.src[p:hi_])
             return ''.join(out)
-        pos_args = [arg_text(a, b) for (a, b) in args[1:]]
+        named_args = {}
+        positional = []
+        for (a, b) in args[1:]:
+            if b - a >= 3 and toks[a].kind == 'id' and toks[a + 1].kind == 'punct' and toks[a + 1].text == '=' and toks[a + 2].text != '=':
+                named_args[toks[a].text] = arg_text(a + 2, b)      # `name = expr`
+            else:
+                positional.append((a, b))
+        pos_args = [arg_text(a, b) for (a, b) in positional]
         n_pos = sum(1 for p in parts if p[0] == 'arg' and p[1] is None)
         if n_pos != len(pos_args) or any(p[0] == 'arg' and p[1] is not None and p[1].isdigit() for p in parts):
             raise Lost('%s: format! at line %d: positional arguments do not match the literal' % (job.rel, rustlex.line_of(job.src, t.pos)))
@@ -372,7 +397,7 @@ def fmt_rewrite(job, skip_ranges, notes):
             else:
                 pname = 'self_' if name == 'self' else (name if not name[0].isupper() else 'c_' + name.lower())
                 if pname not in index:
-                    params.append([pname, name, set()]); index[pname] = len(params) - 1
+                    params.append([pname, named_args.get(name, name), set()]); index[pname] = len(params) - 1
             ent = params[index[pname]]
             if spec == '':
                 ent[2].add('disp'); spec_pieces.append('%s.vdisp()' % pname)
@@ -409,7 +434,7 @@ def fmt_rewrite(job, skip_ranges, notes):
         call = '%s(%s)' % (hname, ', '.join('&(%s)' % p[1] for p in params))
         job.add(t.pos, toks[pc].end, call, [dict(kind='normalisation', old='format!', new=hname)])
         notes['fmt_helpers'].append(dict(file=job.rel, line=line, helper=hname, literal=lit_tok))
-    return '\n'.join(helpers)
+    return k
 
 
 def origin_contract(d, ln, clause):
@@ -464,7 +489,7 @@ def scope_of(head):
     return None
 
 
-def annotate(repo, contracts, out, vacuity=False, demote=()):
+def annotate(repo, contracts, out, vacuity=False, demote=(), drop=()):
     global BASELINE_SIGS
     bs = os.path.join(os.path.dirname(os.path.abspath(contracts[0])), 'baseline_sigs.json') if contracts else None
     BASELINE_SIGS = json.load(open(bs)) if bs and os.path.exists(bs) else {}
@@ -484,6 +509,13 @@ def annotate(repo, contracts, out, vacuity=False, demote=()):
             cur.last_rename = None
         scope = scope_of(head)
         if scope is not None and scope in notes['lost_fns']:
+            continue
+        if scope is not None and scope in drop:
+            # the contract itself no longer type-checks against the function (changed parameter or field types): nothing of it
+            # is kept; the function is left outside the verifier and whatever depended on its contract is undecided
+            mh = re.search(r'\sas\s+(\w+)\s+in\s', head) if head.startswith('hoist') else None
+            if mh:
+                hoisted[mh.group(1)] = 'unimplemented!()'
             continue
         if scope is not None and scope in demote:
             # the function fell out of the verifier's reach in an earlier pass of this run: keep only its contract
@@ -739,7 +771,7 @@ def annotate(repo, contracts, out, vacuity=False, demote=()):
 
     for rel, job in jobs.items():
         for f in job.fns:
-            if f.qual in demote and f.qual not in notes['external_body'] and f.body_open >= 0:
+            if (f.qual in demote or f.qual in drop) and f.qual not in notes['external_body'] and f.body_open >= 0:
                 job.add(f.sig_start, f.sig_start, '#[verifier::external_body]\n', [dict(kind='demoted', fn=f.qual)])
                 notes['external_body'].append(f.qual)
 
@@ -891,6 +923,11 @@ def annotate(repo, contracts, out, vacuity=False, demote=()):
     # functions that exist now but not in the baseline and carry no contract (e.g. an extracted helper): callers see
     # nothing about their result, so a caller's failing proof is undecided rather than a violation
     new_fns = {}
+    notes['dropped'] = sorted(drop)
+    for rel, job in jobs.items():
+        for f in job.fns:
+            if f.qual in drop:
+                new_fns[f.name] = f.qual
     for rel, job in jobs.items():
         if job.wrap is None:
             continue
